@@ -1970,6 +1970,13 @@ impl C09 {
         which: u64,
         frac: (u64, u64),
         kind: Hostile,
+        // a run of VALID content (Base 64 groups in a <publish>, white space
+        // elsewhere) of this share of the limit between the start tag and the
+        // endless run
+        content_share: Option<(u64, u64)>,
+        // the endless run is white space inside the element's END tag instead
+        // of content of kind `kind`
+        in_end_tag: bool,
         counters: &mut Counters,
         out: &mut RunOut,
     ) -> Result<bool, Violation> {
@@ -2012,8 +2019,19 @@ impl C09 {
             rest.pop();
         }
         rest.push(b'>');
-        let (opener, unit) = hostile_bytes(kind);
-        rest.extend_from_slice(opener);
+        let el_name: Vec<u8> = text[e0 + 1..name_end].to_vec();
+        let is_publish = el_name == b"publish";
+        let s2 = content_share.map(|(a, b)| limit / b * a).unwrap_or(0);
+        let (opener, unit): (Vec<u8>, Vec<u8>) = if in_end_tag {
+            let mut o = b"</".to_vec();
+            o.extend_from_slice(&el_name);
+            (o, b"   \n".to_vec())
+        } else {
+            let (o, u) = hostile_bytes(kind);
+            (o.to_vec(), u.to_vec())
+        };
+        let mut after_content = Vec::new();
+        after_content.extend_from_slice(&opener);
         let rcfg = {
             let mut t = ctx.tape.lock().unwrap();
             let chunk_max = if limit == MAX_FILE_SIZE { *t.pick(&[65536usize, 8192, 1 << 20]) } else { *t.pick(&[65536usize, 64, 1000, 8192]) };
@@ -2029,6 +2047,9 @@ impl C09 {
             Section::Bytes(Arc::new(text[..name_end].to_vec())),
             Section::Repeat { unit: b" \n\t ".to_vec(), len: Some(s1) },
             Section::Bytes(Arc::new(rest)),
+            // whole Base 64 groups / lines, so that the valid content is valid
+            Section::Repeat { unit: if is_publish { b"QUJD\n".to_vec() } else { b" \n\t ".to_vec() }, len: Some(s2 / 5 * 5) },
+            Section::Bytes(Arc::new(after_content)),
             Section::Repeat { unit: unit.to_vec(), len: None },
         ];
         let gen = Gen::Sections { sections, pos: 0, max: e0 as u64 + 3 * limit };
@@ -2047,17 +2068,17 @@ impl C09 {
             })
         })?;
         out.evaluations += 1;
-        out.sub_sigs.push(fnv(format!("2stage{}{}{:?}{:?}{}", doc.kind(), which, frac, kind, rcfg.chunk_max).as_bytes()) ^ e0 as u64);
+        out.sub_sigs.push(fnv(format!("2stage{}{}{:?}{:?}{:?}{}{}", doc.kind(), which, frac, kind, content_share, in_end_tag, rcfg.chunk_max).as_bytes()) ^ e0 as u64);
         counters.bump(if limit == MAX_FILE_SIZE { "fault_two_runs_in_one_element_100MB_limit" } else { "fault_two_runs_in_one_element_1MB_limit" });
         counters.max_into("probe_max_pulled_beyond_element_start_two_runs", r.pulled.saturating_sub(e0 as u64));
         ctx.ev(21, r.pulled, || {
             format!(
-                "D2: {} element#{} at {}: {} bytes of white space in its start tag, then endless {:?} as content; limit={} chunk_max={} -> pulled {} bound {:?} result {:?}",
-                doc.kind(), which, e0, s1, kind, limit, rcfg.chunk_max, r.pulled, rcfg.bound,
+                "D2: {} element#{} at {}: {} bytes of white space in its start tag, {} bytes of valid content, then endless {} ; limit={} chunk_max={} -> pulled {} bound {:?} result {:?}",
+                doc.kind(), which, e0, s1, s2, if in_end_tag { "white space inside its end tag".to_string() } else { format!("{:?} as content", kind) }, limit, rcfg.chunk_max, r.pulled, rcfg.bound,
                 res.as_ref().map_err(|e| e.chars().take(60).collect::<String>())
             )
         });
-        let key = format!("{}/two-runs-{}/{:?}", doc.kind(), which, kind);
+        let key = format!("{}/two-runs-{}/{}", doc.kind(), which, if in_end_tag { "EndTag".to_string() } else { format!("{:?}", kind) });
         if r.over_consumed > 0 {
             return Err(Violation::new("over-consume", key, format!("the parser consumed {} bytes more than fill_buf had exposed (BufRead contract)", r.over_consumed)));
         }
@@ -2067,16 +2088,19 @@ impl C09 {
                 "read-bound",
                 key,
                 format!(
-                    "a {} element starting at byte {} with {} bytes of white space in its start tag and endless {:?} as content: parser pulled {} bytes; bound is element start {} + limit {} + max(chunk {}, 64 KiB) = {}",
-                    doc.kind(), e0, s1, kind, p, e0, limit, rcfg.chunk_max, rcfg.bound.unwrap()
+                    "a {} element starting at byte {} with {} bytes of white space in its start tag, {} bytes of valid content and then endless {}: parser pulled {} bytes; bound is element start {} + limit {} + max(chunk {}, 64 KiB) = {}",
+                    doc.kind(), e0, s1, s2, if in_end_tag { "white space inside its end tag".to_string() } else { format!("{:?} as content", kind) }, p, e0, limit, rcfg.chunk_max, rcfg.bound.unwrap()
                 ),
             ));
         }
         if res.is_ok() {
             counters.bump("probe_hostile_stream_yielded_value");
         }
-        if r.pulled >= e0 as u64 + s1 + 1000 {
+        if r.pulled >= e0 as u64 + s1 + s2 + 1000 {
             counters.bump("probe_two_runs_second_run_reached");
+            if s2 > 0 {
+                counters.bump("probe_run_after_long_valid_content_reached");
+            }
         }
         Ok(true)
     }
@@ -2174,16 +2198,40 @@ impl C09 {
     fn run_inner(&self, kind: RunKind, tier: Tier, ctx: &Arc<SimCtx>, counters: &mut Counters, out: &mut RunOut) -> Result<(), Violation> {
         match kind {
             RunKind::Sweep(i) if i >= 3 * 10 * 17 + 4 => {
-                // two runs in one element: element (4) x share of the limit used
-                // by the first run (2) x kind of the second run (6)
+                // Runs within one element. Part A (60 cells): element (5) x share of
+                // the limit used by white space in its start tag (2) x kind of the
+                // endless run that follows as its content (6). Part B (30 cells):
+                // element (5) x share used by VALID content (2) x what follows it
+                // (white space inside the end tag / endless small comments / one
+                // endless comment). The digits are independent of each other.
                 let j = i - (3 * 10 * 17 + 4);
-                let which = j % 4;
-                let frac = [(1u64, 4u64), (9, 10)][((j / 4) % 2) as usize];
-                let hk = [Hostile::Whitespace, Hostile::Base64Text, Hostile::Comment, Hostile::Cdata, Hostile::EntityRefs, Hostile::Nested][((j / 8) % 6) as usize];
+                let (el, frac, hk, content_share, in_end_tag) = if j < 60 {
+                    (
+                        j % 5,
+                        [(1u64, 4u64), (9, 10)][((j / 5) % 2) as usize],
+                        [Hostile::Whitespace, Hostile::Base64Text, Hostile::Comment, Hostile::Cdata, Hostile::EntityRefs, Hostile::Nested][((j / 10) % 6) as usize],
+                        None,
+                        false,
+                    )
+                } else {
+                    let k = j - 60;
+                    let tail = (k / 10) % 3;
+                    (
+                        k % 5,
+                        (0u64, 1u64),
+                        if tail == 1 { Hostile::ManyComments } else { Hostile::Comment },
+                        Some([(1u64, 2u64), (9, 10)][((k / 5) % 2) as usize]),
+                        tail == 0,
+                    )
+                };
+                // element: 0 = <publish> of a snapshot, 1 = <publish> of a delta,
+                // 2 = <withdraw> of a delta, 3 / 4 = the <snapshot> / first
+                // <delta> entry of a notification
+                let which = [0u64, 0, 1, 2, 3][el as usize];
                 let doc = {
                     let mut t = ctx.tape.lock().unwrap();
-                    match which {
-                        2 | 3 => {
+                    match el {
+                        3 | 4 => {
                             let host = "rrdp.example.net";
                             Doc::Notification(NotificationFile::new(
                                 gen_uuid(&mut t), 7,
@@ -2191,7 +2239,7 @@ impl C09 {
                                 vec![DeltaInfo::new(7, gen_https(&mut t, host), gen_hash(&mut t))],
                             ))
                         }
-                        0 if j % 16 < 8 => Doc::Snapshot(Snapshot::new(gen_uuid(&mut t), 7, vec![PublishElement::new(gen_rsync(&mut t), Bytes::from_static(b"hello world!!"))])),
+                        0 => Doc::Snapshot(Snapshot::new(gen_uuid(&mut t), 7, vec![PublishElement::new(gen_rsync(&mut t), Bytes::from_static(b"hello world!!"))])),
                         _ => Doc::Delta(Delta::new(
                             gen_uuid(&mut t), 7,
                             vec![
@@ -2204,7 +2252,7 @@ impl C09 {
                 let mut w = SimWrite::new(ctx, WriteCfg { short_writes: false, eintr: 0, fault: WriteFault::None, fault_kind: std::io::ErrorKind::Other });
                 doc.write(&mut w).map_err(|e| Violation::new("write-failed", doc.kind(), e.to_string()))?;
                 let bytes = Arc::new(w.accepted);
-                if self.two_stage_case(ctx, &doc, &bytes, which, frac, hk, counters, out)? {
+                if self.two_stage_case(ctx, &doc, &bytes, which, frac, hk, content_share, in_end_tag, counters, out)? {
                     out.nontrivial = true;
                 }
                 Ok(())
@@ -2325,7 +2373,10 @@ impl C09 {
                             let hk2 = k2[ctx.choose(k2.len() as u64) as usize];
                             let heavy2 = !matches!(doc, Doc::Notification(_));
                             if !heavy2 || ctx.chance(1, if tier == Tier::Thorough { 12 } else { 40 }) {
-                                self.two_stage_case(ctx, &doc, &bytes, which, frac, hk2, counters, out)?;
+                                let content_share = match ctx.choose(3) { 0 => Some((1u64, 2u64)), 1 => Some((1, 4)), _ => None };
+                                let frac = if content_share == Some((1, 2)) { (1, 4) } else { frac.min((1, 2)) };
+                                let in_end_tag = ctx.chance(1, 4);
+                                self.two_stage_case(ctx, &doc, &bytes, which, frac, hk2, content_share, in_end_tag, counters, out)?;
                             }
                         } else if !heavy || ctx.chance(1, if tier == Tier::Thorough { 12 } else { 40 }) {
                             self.hostile_case(ctx, &doc, &bytes, pos, hk, counters, out)?;
@@ -2344,7 +2395,7 @@ impl Scenario for C09 {
     fn level(&self) -> &'static str { "exploration" }
 
     fn sweep_len(&self, _tier: Tier) -> u64 {
-        3 * 10 * 17 + 4 + 4 * 2 * 6
+        3 * 10 * 17 + 4 + 60 + 30
     }
 
     fn random_runs(&self, tier: Tier) -> u64 {
@@ -2394,7 +2445,8 @@ impl Scenario for C09 {
          by an endless hostile run with the bytes-pulled monitor armed; or two runs within one element: white space of \
          1/4..9/10 of the limit in its start tag, then an endless run as its content, bound from the element start). \
          The sweep walks document kind x position (10) x hostile kind (17), four cells at the 100 MB limit from the \
-         valid side, and element (4) x share (2) x second run (6) deterministically. evaluations = parses/writes executed; \
+         valid side, and 90 cells of runs within one element (white space in the start tag x endless content; valid content \
+         of 1/2 or 9/10 of the limit x white space in the end tag / endless comments) deterministically. evaluations = parses/writes executed; \
          distinct = distinct hash of (document bytes or prefix, fault kind, fault offset, chunk size) \
          counted in a bitmap (lower bound); a run is non-trivial if a library writer or parser ran."
     }
@@ -2440,6 +2492,9 @@ impl Scenario for C09 {
             || totals.get("probe_valid_delta_elements_just_below_file_limit") == 0
         {
             return Some("the limits were never approached from the valid side".into());
+        }
+        if totals.get("probe_two_runs_second_run_reached") == 0 {
+            return Some("no stream with two runs in one element ever got past its first run".into());
         }
         None
     }
